@@ -69,7 +69,6 @@ Qed.
 (* digits after the prefix: none, or a number without a leading zero *)
 Definition group_ok (d : list ascii) : Prop :=
   d = [] \/ (forallb is_digit d = true /\ match d with c :: _ => c <> "0"%char | [] => False end).
-Definition group_of (d : list ascii) : N := match d with [] => 0%N | _ => digits_val d 0 end.
 
 Lemma group_text d : group_ok d ->
   (if N.eqb (group_of d) 0 then "" else print_N (group_of d))%string = str d.
@@ -137,9 +136,6 @@ Proof.
 Qed.
 
 (** decidable form of "no occurrence" *)
-Definition no_occb (p s : list ascii) : bool :=
-  negb (Nat.eqb (List.length p) 0) &&
-  forallb (fun st => negb (starts_with p (skipn st s))) (seq 0 (S (List.length s))).
 Lemma no_occb_sound p s : no_occb p s = true -> forall st, ~ occ p s st.
 Proof.
   unfold no_occb. rewrite andb_true_iff. intros [Hp Hall] st Hocc.
@@ -148,4 +144,11 @@ Proof.
   rewrite forallb_forall in Hall. specialize (Hall st). unfold occ in Hocc. rewrite Hocc in Hall.
   assert (In st (seq 0 (S (List.length s)))) as Hin by (apply in_seq; lia).
   specialize (Hall Hin). discriminate.
+Qed.
+
+Lemma group_okb_sound d : group_okb d = true -> group_ok d.
+Proof.
+  unfold group_okb, group_ok. destruct d as [|c r]; auto.
+  intro H. apply andb_true_iff in H. destruct H as [H1 H2]. right. split; auto.
+  intro E. subst. discriminate.
 Qed.
